@@ -670,6 +670,8 @@ class FnTypes:
                 if rr and rr[0] == "class":
                     return ("inst", rr[1])
                 if rr and rr[0] == "ext":
+                    if rr[1].split(".")[-2:] in (["Lark", "open"], ["Lark", "open_from_package"]):
+                        return ("extinst", ".".join(rr[1].split(".")[:-1]))
                     return ("extinst", rr[1])
             if isinstance(v, ast.Constant):
                 return Types.const_type(v)
@@ -786,7 +788,10 @@ class FnTypes:
             elif u[0] == "wrapmethod":
                 out.append(self.wrap_call(u[1], u[2], e, argts, env))
             elif u[0] == "ext":
-                out.append(("extinst", u[1]) if u[1].split(".")[-1][:1].isupper() else ("extret", u[1]))
+                if u[1].split(".")[-1] in ("open", "open_from_package") and u[1].split(".")[-2:-1] == ["Lark"]:
+                    out.append(("extinst", ".".join(u[1].split(".")[:-1])))  # alternative constructors of lark.Lark
+                else:
+                    out.append(("extinst", u[1]) if u[1].split(".")[-1][:1].isupper() else ("extret", u[1]))
             else:
                 return None
         if not out or any(o is None for o in out):
